@@ -150,9 +150,9 @@ func genRun(t *rapid.T, d Data, nq int, forceKill string) Run {
 		r.Kill = Kill{Kind: "hook", Point: p, K: k}
 	}
 	r.Procs = rapid.SampledFrom([]int{0, 0, 0, 1, 2}).Draw(t, "procs")
-	if rapid.IntRange(0, 2).Draw(t, "slowrows") == 0 {
-		// aim at a report duration of 0.1 .. 1.3 s
-		target := rapid.SampledFrom([]int{100, 300, 600, 900, 1300}).Draw(t, "report-ms")
+	if rapid.Bool().Draw(t, "slowrows") {
+		// aim at a report duration of 0.1 .. 1.3 s (around the 1 s interval, so that reports overlap ticks and each other)
+		target := rapid.SampledFrom([]int{100, 300, 600, 900, 900, 1300, 1300}).Draw(t, "report-ms")
 		r.SlowRowUs = target * 1000 / d.NGroups
 		if r.SlowRowUs < 50 {
 			r.SlowRowUs = 50
